@@ -131,6 +131,9 @@ func (x *Exec) doProbe(op *Op) {
 	if len(gs.RequestContexts) > 0 {
 		attrs["request_contexts"] = "present"
 	}
+	if snapHasNon20(mid) {
+		attrs["address_len_not_20"] = "true"
+	}
 	if err := types.ValidateGenesis(*gs); err != nil {
 		x.viol("C19", "validate", fmt.Sprintf("exported genesis fails validation at height %d: %v", pre.Height, err), attrs)
 		return
@@ -252,6 +255,13 @@ func (x *Exec) doExportContinue(op *Op) {
 	pre := x.cur
 	x.probeStats(pre)
 	x.stats.inc("fault_export_and_continue")
+	// host contract H7: a zero-height export runs the service module's own preparation first (the repository's
+	// SimApp.prepForZeroHeightGenesis does not call it; a production app does)
+	chk := h.app.BaseApp.NewContext(true, tmproto.Header{ChainID: h.chain, Height: h.Height(), Time: h.Time()})
+	if p, _ := guard(func() { service.PrepForZeroHeightGenesis(chk, h.app.ServiceKeeper) }); p != "" {
+		x.viol("C19", "prep_panic", "PrepForZeroHeightGenesis panicked: "+p, nil)
+		return
+	}
 	var appState []byte
 	p, fromSvc := guard(func() {
 		exp, err := h.app.ExportAppStateAndValidators(true, nil)
@@ -285,6 +295,9 @@ func (x *Exec) doExportContinue(op *Op) {
 		}
 		if len(pre.Ctx) > 0 {
 			attrs["request_contexts"] = "present"
+		}
+		if snapHasNon20(pre) {
+			attrs["address_len_not_20"] = "true"
 		}
 		if fromSvc || strings.Contains(p, "irismod.service") || strings.Contains(p, "RequestContext") {
 			x.viol("C19", "import_panic", "a fresh chain cannot start from the exported genesis: "+p, attrs)
@@ -324,4 +337,31 @@ func (x *Exec) doExportContinue(op *Op) {
 	x.memoReq = map[string]string{}
 	x.blockOps = x.blockOps[:0]
 	x.stats.inc("probe_export_continue_ok")
+}
+
+// snapHasNon20: does the exported state contain an account address whose length is not 20 bytes? (The SDK's JSON
+// codec for addresses accepts only 20-byte addresses; the service module accepts any non-empty provider or
+// withdrawal address.)
+func snapHasNon20(s *Snap) bool {
+	for _, b := range s.Bindings {
+		if len(b.Provider) != 20 || len(b.Owner) != 20 {
+			return true
+		}
+	}
+	for o, w := range s.Withdraw {
+		if len(o) != 40 || len(w) != 20 {
+			return true
+		}
+	}
+	for _, c := range s.Ctx {
+		if len(c.Consumer) != 20 {
+			return true
+		}
+		for _, p := range c.Providers {
+			if len(p) != 20 {
+				return true
+			}
+		}
+	}
+	return false
 }
